@@ -1,3 +1,3 @@
 SPECIFICATION Spec
-CONSTANTS Lines <- LinesDup  Prog <- ProgDup  BpSets <- BpsDup  MaxReq = 2  Deviations <- DupDev  Fuel = 20
+CONSTANTS LibLines <- NoLib  Lines <- LinesDup  Prog <- ProgDup  BpSets <- BpsDup  MaxReq = 2  Deviations <- DupDev  Fuel = 20
 INVARIANT NoSkippedBreakpoint
